@@ -239,6 +239,49 @@ func runC04(e *core.Env) error {
 		e.Add(core.Case{Op: op, Impl: impl, Nontrivial: changed > 0, Tags: tags, Key: fmt.Sprintf("c04 %d %d", h, e.Seed)})
 		w.close()
 	}
+	// ---- two integrations on two EVENTS of the same transactions, one caching client, same ranges, both
+	// orders: each pair's rows are what it writes alone (what one fetched, cached and attached must not
+	// cost the other a row)
+	for rep := 0; rep < e.N(4, 16) && !e.OverBudget(); rep++ {
+		rr := r.Fork()
+		chain := transferChain(7+rr.Intn(3), uint64(1+rr.Intn(1000)))
+		w, err := newWorld(e, chain)
+		if err != nil {
+			return err
+		}
+		w.client = jrpc2.New(w.node.URL()).WithMaxReads(8).WithPollDuration(time.Hour)
+		fields := core.Pick(rr, [][]string{{"block_time"}, {"block_time", "tx_input"}})
+		root := config.Root{Integrations: []config.Integration{approvalIG("appr", "t1", fields, nil), transferIG("xfer", "t2", fields, nil)}}
+		if err := w.setupRoot(&root); err != nil {
+			w.close()
+			return err
+		}
+		batch := 2 + rr.Intn(3)
+		ta, err1 := w.addTask("appr", root.Integrations[0], "src1", 1, 0, batch, 1)
+		tx, err2 := w.addTask("xfer", root.Integrations[1], "src1", 1, 0, batch, 1)
+		if err1 != nil || err2 != nil {
+			w.close()
+			return fmt.Errorf("c04 pair: %v %v", err1, err2)
+		}
+		order := []*wTask{ta, tx} // the Approval log has the HIGHER index in every transaction
+		if rep%2 == 1 {
+			order = []*wTask{tx, ta}
+		}
+		for round := 0; round < 12 && !w.dead; round++ {
+			for _, t := range order {
+				w.step(t, noFault)
+			}
+		}
+		var alone []string
+		for _, t := range order {
+			alone = append(alone, w.projOracle(t, 0))
+		}
+		op, impl := w.caseOp()
+		e.Add(core.Case{Oracles: alone, Impl: "ok", Key: fmt.Sprintf("c04-two-events %d %d", rep, e.Seed), Nontrivial: true,
+			Tags: []string{"two-events-one-cache", fmt.Sprintf("approval-first=%v", rep%2 == 0)}, Detail: map[string]any{"history": strings.Split(op, "\n")}})
+		e.Add(core.Case{Op: op, Impl: impl, Nontrivial: true, Key: fmt.Sprintf("c04-two-events-k %d %d", rep, e.Seed), Tags: []string{"two-events-one-cache"}})
+		w.close()
+	}
 	return nil
 }
 
